@@ -5,7 +5,7 @@
    (two / three files): the two theorems below have the same conclusion. *)
 From Coq Require Import List Arith NArith Bool Lia.
 From Jbk Require Import Base.ListExtra Base.Bytes Base.Crc Base.Parser Base.Prog Format.Structs Format.Roundtrips
-  Manifest.SetLocation Content.Pack Content.FilePack Container.Reader Container.Proofs.
+  Manifest.SetLocation Content.Pack Content.Cluster Content.FilePack Container.Reader Container.Proofs.
 Import ListNotations.
 Open Scope N_scope.
 
@@ -54,6 +54,26 @@ Proof.
   intros Hn Hfs Ho Hf P Hi Hk Hc Hb Bj Bk.
   destruct (read_in_file file pos h ch infos clusters i k j cl so b P Hi Hk Hc Hb Bj Bk) as (off & R).
   exists off. unfold get_content, locate. rewrite Listed, Hn, Hfs, Ho, Hf, R. reflexivity.
+Qed.
+
+(* C01 through the container: for EVERY insertion sequence, the content inserted as number i with "do not compress" is
+   what Container::get_bytes returns for the address the creator handed out, when the pack the creator's bookkeeping
+   describes is embedded in the file at hand *)
+Theorem inserted_content_reads_back_through_the_container
+  (ops : list (list N * bool)) pos size h ch clusters i x :
+  let s := fold_left (add (list N) lenN) ops (init (list N)) in
+  find_uuid (pi_uuid info) (ct_packs c) = Some (pos, size) ->
+  content_pack_at (ct_main c) pos h ch (map info_of (infos (list N) s)) clusters ->
+  Forall2 cluster_matches (cs (list N) s) clusters ->
+  N.of_nat (length (cs (list N) s)) <= 2 ^ 20 ->
+  nth_error ops i = Some (x, false) ->
+  exists k j off, get_content c fs pack_id (N.of_nat i) = Ok (CFound k j (CRaw off (lenN x)) (Some x)).
+Proof.
+  intros s Hf P F2 Lim Hop.
+  destruct (stored_content_reads_back ops (ct_main c) pos h ch clusters i x P F2 Lim Hop) as (k & j & off & p & Ho & Hr).
+  exists k, j, off. unfold get_content.
+  rewrite Listed, (locate_inside_first _ _ fs _ (pi_loc info) pos size Hf).
+  rewrite run_n_run, run_pbind, Ho, Hr. reflexivity.
 Qed.
 End Through.
 Close Scope N_scope.
